@@ -2,15 +2,17 @@
 (* C11 S2 (observed): every set of 2..MaxSeqs sequences over {0, 1} of length 1..MaxLen is an
    input of the real align_multiple with default settings; the run is recorded (merges seen by
    the rebound align_optimal, returned tuple) and judged by Trace.tla.  This module only
-   enumerates the inputs and evaluates the known-finding predicate on them. *)
+   enumerates the inputs and evaluates the known-finding predicate on them.
+   objs: every way of passing equal sequences as one and the same object (Dom_Objs). *)
 EXTENDS ProgressiveMsa, TLC
 CONSTANTS MaxSeqs, MaxLen
-VARIABLES inputs, kb
+VARIABLES inputs, objs, kb
 Seqs == UNION {[1..k -> {0, 1}] : k \in 1..MaxLen}
-Init == /\ \E n \in 2..MaxSeqs : inputs \in [1..n -> Seqs]
+Init == /\ \E n \in 2..MaxSeqs : /\ inputs \in [1..n -> Seqs]
+                                   /\ objs \in {o \in ObjPatterns(n) : Dom_Objs(inputs, o)}
         /\ kb = KB_C11_IdenticalHomopolymers(inputs)
-Next == UNCHANGED <<inputs, kb>>
-Spec == Init /\ [][Next]_<<inputs, kb>>
+Next == UNCHANGED <<inputs, objs, kb>>
+Spec == Init /\ [][Next]_<<inputs, objs, kb>>
 \* identical inputs that are not homopolymers are in the domain of the property without restriction
 ASSUME ~KB_C11_IdenticalHomopolymers(<<<<0, 1>>, <<0, 1>>>>) /\ KB_C11_IdenticalHomopolymers(<<<<1, 1>>, <<0>>, <<1, 1>>>>)
 =============================================================================
